@@ -7,6 +7,7 @@ import re
 from corrolint import flow
 from corrolint.facts import op_place, op_const, op_local, rvalue_places
 from . import common as cm
+from . import sqlinv
 
 PUBSUB = "klukai_agent::api::public::pubsub::"
 FWD_SUB = PUBSUB + "forward_sub_to_sender"
@@ -21,6 +22,7 @@ def run(ctx):
     fail(ctx)
     mono(ctx)
     client(ctx)
+    snapshot(ctx)
 
 
 def _variant_blocks(b, variant):
@@ -203,3 +205,40 @@ def client(ctx):
         R.require(any("?from=" in s for s in strs), "from-param", pr.where(), "the resume request carries ?from=", fail_msg="the resume request no longer carries ?from=")
         reads = cm.field_reads(pr, "last_change_id")
         R.require(bool(reads), "from-last-id", pr.where(), "the resume position is read from self.last_change_id", fail_msg="the resume request does not use self.last_change_id")
+
+
+def snapshot(ctx):
+    """The attach-from-scratch snapshot is `SELECT .. FROM query` followed by `SELECT MAX(id) FROM changes`; the id reported with
+    the snapshot is the resume point, so both statements must read ONE database snapshot: they run on the same connection value
+    and that value is a transaction at every call site (a bare pooled connection gives each statement its own WAL snapshot, and a
+    matcher commit between them makes the snapshot claim a change it does not contain)."""
+    F = ctx.F
+    R = ctx.rule("C12.snapshot", "K4", "Matcher::all_rows reads the rows and the last change id on one connection value, and every caller passes a transaction")
+    b = F.get("klukai_types::pubsub::MatcherHandle::all_rows") or F.get("klukai_types::pubsub::Matcher::all_rows")
+    if b is None:
+        cands = [x for x in F.find(r"^klukai_types::pubsub::\w+::all_rows$")]
+        b = cands[0] if cands else None
+    if not R.anchor(b, "all_rows", "fn all_rows in klukai_types::pubsub"):
+        return
+    sites = [s for s in sqlinv.inventory(F, [b]) if s.verb == "SELECT" and (s.reads & {"query", "changes"})]
+    rows = [s for s in sites if "query" in s.reads]
+    last = [s for s in sites if "changes" in s.reads]
+    if not (R.anchor(rows, "rows-select", "SELECT .. FROM query in all_rows") and R.anchor(last, "max-id-select", "SELECT MAX(id) FROM changes in all_rows")):
+        return
+    kinds = {}
+    for s in rows + last:
+        p = op_place(s.call.args[0])
+        kinds[s.call.where()] = sqlinv.classify_conn(F, b, p, (s.call.bb, "T"), resolve_params=True) if p is not None else {"other:const"}
+    allk = set().union(*kinds.values())
+    same = len({frozenset(k) for k in kinds.values()}) == 1
+    R.require(same, "one-connection", b.where(), "rows and MAX(id) are read through the same connection value (%s)" % sorted(allk),
+              fail_msg="all_rows reads the rows and the last change id through different connections: %s" % {k: sorted(v) for k, v in kinds.items()})
+    callers = F.callers_of(b.id)
+    if R.floor(len(callers), 1, "callers", "call sites of all_rows"):
+        for c in callers:
+            p = op_place(c.args[1]) if len(c.args) > 1 else None
+            k = sqlinv.classify_conn(F, c.body, p, (c.bb, "T"), resolve_params=True) if p is not None else {"other:const"}
+            R.require(bool(k) and all(x.startswith("tx:") for x in k), "caller-passes-tx@" + cm.short_id(F.root_fn(c.body).id), c.where(),
+                      "the snapshot is read inside a transaction begun by the caller (%s)" % sorted(k),
+                      fail_msg="all_rows is given a connection that is not a transaction (%s): the rows and MAX(id) come from different WAL snapshots, so a change committed in between is "
+                               "reported as included in the snapshot but is in neither the rows nor the following events" % sorted(k))
